@@ -21,7 +21,8 @@ TARGETS = ["Proofs/" + os.path.basename(f)[:-2] + ".vo"
 READ = ["models/feature_model.py", "operations/fm_", "transformations/json_writer.py", "transformations/glencoe_writer.py",
         "transformations/pl_writer.py", "transformations/splot_writer.py", "transformations/clafer_writer.py",
         "transformations/afm_writer.py", "transformations/uvl_writer.py", "transformations/featureide_writer.py",
-        "transformations/json_reader.py", "transformations/glencoe_reader.py", "operations/fm_atomic_sets.py"]
+        "transformations/json_reader.py", "transformations/glencoe_reader.py", "operations/fm_atomic_sets.py",
+        "transformations/featureide_reader.py"]
 
 
 def sh(cmd, cwd=None, timeout=1800):
